@@ -182,7 +182,7 @@ def quadruples(m, scratch, rng, rep, n):
     return total
 
 
-EVOLUTIONS = ["reversion", "remove", "rename", "recluster", "edit-body-autoversion", "zero-params", "fn-argument"]
+EVOLUTIONS = ["reversion", "remove", "rename", "recluster", "edit-body-autoversion", "zero-params", "fn-argument", "undecorate"]
 
 
 def evolution(m, scratch, rng, rep, cluster, kind, idx, read_before=False, backend="fs"):
@@ -199,21 +199,22 @@ def evolution(m, scratch, rng, rep, cluster, kind, idx, read_before=False, backe
 
     via_arg = kind == "fn-argument"
 
-    def src(callee_version, callee_name="callee", callee_cluster=cl, body="x + 1", with_callee=True):
+    def src(callee_version, callee_name="callee", callee_cluster=cl, body="x + 1", with_callee=True, plain=False):
         lines = ["import builtins", "from twosigma.memento import memento_function", ""]
         if via_arg:
             # the callee reaches the caller's records as an ARGUMENT of another memento function
             lines += ["@memento_function(%sversion=\"1\")" % cl, "def apply_fn(fn, x):", "    return fn(x)", ""]
         if with_callee:
             ver = "" if callee_version is None else "version=%r" % callee_version
-            lines += ["@memento_function(%s%s)" % (callee_cluster, ver),
+            # (plain: the callee keeps its name but loses its decorator -- it is an ordinary function now)
+            lines += ([] if plain else ["@memento_function(%s%s)" % (callee_cluster, ver)]) + [
                       "def %s(%s):" % (callee_name, callee_sig),
                       "    builtins._vt((\"exec\", \"callee\", 0, None))",
                       "    return %s" % ("41" if zero else body), ""]
         call = callee_call.replace("callee", callee_name) if with_callee else "0"
         if via_arg:
             call = "apply_fn(%s, x)" % callee_name
-        deps = "dependencies=[%s], " % callee_name if with_callee else ""
+        deps = "dependencies=[%s], " % callee_name if with_callee and not plain else ""
         lines += ["@memento_function(%s%sversion=\"1\")" % (cl, deps),
                   "def caller(x):",
                   "    builtins._vt((\"exec\", \"caller\", x, None))",
@@ -243,6 +244,8 @@ def evolution(m, scratch, rng, rep, cluster, kind, idx, read_before=False, backe
             mod = write_module(root, modname, src("2"))
         elif kind == "remove":
             mod = write_module(root, modname, src(None, with_callee=False))
+        elif kind == "undecorate":
+            mod = write_module(root, modname, src("1", plain=True))
         elif kind == "rename":
             mod = write_module(root, modname, src("1", callee_name="callee2"))
         elif kind == "recluster":
@@ -270,7 +273,7 @@ def evolution(m, scratch, rng, rep, cluster, kind, idx, read_before=False, backe
             ran = [e for e in tr.execs() if e[1] == "caller"]
             if r != before or ran:
                 rep.violation("C12:current-entry-not-served-after-evolution", "caller's own version is current but the call returned %r (stored %r), body ran %d times" % (r, before, len(ran)), meta)
-        if name == "list_memoized_functions" and kind in ("reversion", "zero-params", "remove", "rename", "fn-argument"):
+        if name == "list_memoized_functions" and kind in ("reversion", "zero-params", "remove", "rename", "fn-argument", "undecorate"):
             # the callee's version "1" no longer exists in the code: a listing that still names it names an external reference
             stale = [x.qualified_name for x in r if x.qualified_name.endswith(":callee#1") and not x.external]
             if stale:
@@ -286,7 +289,7 @@ def evolution(m, scratch, rng, rep, cluster, kind, idx, read_before=False, backe
         if name == "memento":
             if r is None:
                 rep.violation("C12:current-entry-not-found-after-evolution", "caller.memento() is None although its version is current", meta)
-            elif kind in ("reversion", "remove", "rename", "edit-body-autoversion", "zero-params"):
+            elif kind in ("reversion", "remove", "rename", "edit-body-autoversion", "zero-params", "undecorate"):
                 refs = [x.fn_reference for x in r.invocation_metadata.invocations]
                 if not refs or not all(x.external for x in refs if x.qualified_name.split("#")[0].endswith("callee")):
                     rep.violation("C12:vanished-version-not-external", "references to the vanished callee version are not reported as external: %r" % (refs,), meta)
